@@ -124,6 +124,9 @@ func TestVerif_C03_Wrappers(t *testing.T) {
 		px, py, _ := sm2gen.Pub(d)
 		id := gen.RandBytes(r0, gen.Int(t, "idlen", 0, 40))
 		msg := gen.RandBytes(r0, gen.Int(t, "msglen", 0, 150))
+		id, idShape := gen.Absent(t, "id", id)
+		msg, _ = gen.Absent(t, "msg", msg)
+		rec.Tally("id-shape:" + idShape)
 		za, _ := sm2ref.ZA(id, px, py)
 		e := sm2ref.E(za, msg)
 		k := gen.RandBytes(r0, 32)
